@@ -234,9 +234,6 @@ class Driver:
         for m in self.monitors:
             if hasattr(m, 'before_iter'):
                 self._safe(m.before_iter, self)
-        # scripted actions
-        for act in [a for a in self.script if a['at'] == it]:
-            self.do_action(schd, act)
         if self.kill_at_iter is not None and it >= self.kill_at_iter:
             self.hard_kill('iter')
 
@@ -334,37 +331,39 @@ class Driver:
                                 traceback.format_exc(limit=8))
 
     # -- scripted actions ----------------------------------------------
-    def do_action(self, schd, act):
-        from cylc.flow import commands
+    async def run_actions(self, schd):
+        """Issue the scripted commands due at this iteration through the
+        real mutation entry point (validation, then the command queue)."""
+        it = self.bus.it
+        for act in [a for a in self.script if a['at'] == it]:
+            await self.do_action(schd, act)
+
+    async def do_action(self, schd, act):
         name = act['cmd']
-        args = act.get('args', {})
-        self.bus.emit('CMD', cmd=name, args=args)
+        args = dict(act.get('args', {}))
+        if name == 'stop':
+            from cylc.flow.workflow_status import StopMode
+            args['mode'] = {'clean': StopMode.REQUEST_CLEAN,
+                            'now': StopMode.REQUEST_NOW,
+                            'now-now': StopMode.REQUEST_NOW_NOW,
+                            'kill': StopMode.REQUEST_KILL,
+                            None: None}[args.get('mode')]
+        ev = self.bus.emit('CMD', cmd=name, args=act.get('args', {}),
+                           pool=snap_pool(schd.pool))
+        for m in self.monitors:
+            if hasattr(m, 'on_command'):
+                self._safe(m.on_command, self, schd, act)
         try:
-            if name == 'stop':
-                from cylc.flow.workflow_status import StopMode
-                mode = {'clean': StopMode.REQUEST_CLEAN,
-                        'now': StopMode.REQUEST_NOW,
-                        'now-now': StopMode.REQUEST_NOW_NOW,
-                        'kill': StopMode.REQUEST_KILL,
-                        None: None}[args.get('mode')]
-                gen = commands.stop(
-                    schd, mode=mode, cycle_point=args.get('cycle_point'),
-                    clock_time=None, task=args.get('task'),
-                    flow_num=args.get('flow_num'))
-            else:
-                fn = getattr(commands, name)
-                gen = fn(schd, **args)
-            # through the real queue, like the server does
-            import uuid
-            schd.command_queue.put((str(uuid.uuid4()), name, gen))
-            self.cmd_results.append({'cmd': name, 'args': args,
-                                     'it': self.bus.it, 'ok': True})
+            ok, msg = await schd.server.resolvers._mutation_mapper(
+                name, args, {})
         except Exception as exc:
-            self.bus.emit('CMD_REJECTED', cmd=name, args=args,
-                          err=f'{type(exc).__name__}: {exc}')
-            self.cmd_results.append({'cmd': name, 'args': args,
-                                     'it': self.bus.it, 'ok': False,
-                                     'err': str(exc)})
+            ok, msg = False, f'{type(exc).__name__}: {exc}'
+        self.cmd_results.append({'cmd': name, 'args': act.get('args', {}),
+                                 'it': self.bus.it, 'ok': bool(ok),
+                                 'msg': str(msg)[:200]})
+        if not ok:
+            self.bus.emit('CMD_REJECTED', cmd=name, args=act.get('args', {}),
+                          err=str(msg)[:300])
 
     # -- run ---------------------------------------------------------------
     def finish(self, killed=False):
